@@ -745,7 +745,9 @@ fn extract_files_with_options(options: ExtractOptions) -> Result<()> {
             let mut file_list = match archive.read_file("(listfile)") {
                 Ok(listfile_data) => {
                     println!("Parsing listfile...");
-                    match wow_mpq::special_files::parse_listfile(&listfile_data) {
+                    match wow_mpq::special_files::parse_listfile_with(&listfile_data, |name| {
+                        matches!(archive.find_file(name), Ok(Some(_)))
+                    }) {
                         Ok(filenames) => {
                             println!("Found {} files in listfile", filenames.len());
                             filenames
